@@ -16,8 +16,11 @@ TECHNIQUE = "model-based history testing (Hypothesis operation lists) against a 
 RULE = (
     "A case = (ancestor limit in {1,2,20,None}, fluent set of 4-6 ground fluents with/without defaults, list of "
     "<=40 (quick) / 80 ops: root(partial assignment), child(parent, updates incl. empty / reset-to-default / "
-    "same-value), hash, eq, repr).  After every op every live state is compared with its dict model on every "
-    "fluent, and all pairs are compared for ==/hash.  Non-trivial = history whose deepest chain exceeds the "
+    "same-value), twin(parent, updates, redundant re-assignments: two children of one parent denoting the same map, compared at once), hash, eq, repr; an observation schedule: after every op, or only at <=4 drawn checkpoints and at the end, "
+    "with == compared before or after the value reads, because hash / == / repr / a failing get_value condense states in "
+    "place).  The limit is set both on a UPState subclass (roots) and on UPState itself (children).  At every observation "
+    "every live state is compared with its dict model on every fluent, and the last 6 states pairwise for ==/hash; "
+    "explicit eq ops are compared with the model too.  Non-trivial = history whose deepest chain exceeds the "
     "ancestor limit (condensation happened) and contains a reset-to-default update and two equal states "
     "reached by different histories; distinct by hash of the op list."
 )
@@ -74,7 +77,21 @@ def oracle_factory(ctx):
 
     def oracle(case):
         limit, ops = case["limit"], case["ops"]
+        sched = None if case.get("sched") is None else set(case["sched"])
+        pairs_first = bool(case.get("pairs_first"))
         p, S, doms, fexps = _setup(limit)
+        # make_child builds plain UPState objects, so a subclass limit only governs root states:
+        # the limit is also set on UPState itself for the duration of the case
+        from unified_planning.model.state import UPState
+
+        saved_limit = UPState.MAX_ANCESTORS
+        UPState.MAX_ANCESTORS = limit
+        try:
+            return run(case, limit, ops, sched, pairs_first, p, S, doms, fexps)
+        finally:
+            UPState.MAX_ANCESTORS = saved_limit
+
+    def run(case, limit, ops, sched, pairs_first, p, S, doms, fexps):
         live = []  # (state, model dict fluent idx -> value idx, depth)
         maxdepth = 0
         reset_default = False
@@ -146,14 +163,56 @@ def oracle_factory(ctx):
                         got = None
                     if got != before[i]:
                         raise Violation("parent-changed", f"make_child changed parent's f{i}: {before[i]} -> {got}", case)
+            elif kind == "twin":
+                # two children of ONE parent that denote the same map through different updates:
+                # the second re-assigns some fluents to the value they already have
+                par, m, d = live[-1 - (op[1] % len(live))]
+                upd = {i: vi for i, vi in op[2]}
+                m2 = dict(m)
+                m2.update(upd)
+                upd2 = dict(upd)
+                for i in op[3]:
+                    cur = m2.get(i, doms[i][1])
+                    if cur is not None:
+                        upd2.setdefault(i, cur)
+                c1 = par.make_child({fexps[i]: val(i, vi) for i, vi in upd.items()})
+                c2 = par.make_child({fexps[i]: val(i, vi) for i, vi in upd2.items()})
+                m3 = dict(m)
+                m3.update(upd2)
+                live.append((c1, m2, d + 1))
+                live.append((c2, m3, d + 1))
+                maxdepth = max(maxdepth, d + 1)
+                if upd2 != upd:
+                    ctx_flags["equal_by_different_history"] = True
+                if op[4]:
+                    eq = (c1 == c2) if op[4] == 1 else (c2 == c1)
+                    if not eq:
+                        raise Violation("eq-differs", f"twin children of one parent at op {k} (updates {upd} / {upd2}) denote the same map but == is False", case)
+                    if hash(c1) != hash(c2):
+                        raise Violation("hash-differs", f"twin children at op {k} equal but hashes differ", case)
             elif kind == "hash":
                 hash(live[op[1] % len(live)][0])
             elif kind == "repr":
                 repr(live[op[1] % len(live)][0])
             elif kind == "eq":
-                live[op[1] % len(live)][0] == live[op[2] % len(live)][0]
-            check_all(k)
-            check_pairs(k)
+                (sa, ma, _), (sb, mb, _) = live[op[1] % len(live)], live[op[2] % len(live)]
+                same = all(expected(ma, i) == expected(mb, i) for i in range(NFL))
+                eq = sa == sb
+                if eq != same:
+                    raise Violation("eq-differs", f"explicit == at op {k}: == is {eq}, same-values is {same}", case)
+                if same and ma != mb:
+                    ctx_flags["equal_by_different_history"] = True
+            # Observation schedule: hash / == / repr / a failing get_value condense a state in place, so
+            # observing every state after every op would hide everything that only shows on
+            # un-condensed states.  'dense' cases observe after every op, sparse ones only at drawn
+            # checkpoints (and always at the end); the order of the two observation passes is drawn too.
+            if sched is None or k in sched or k == len(ops) - 1:
+                if pairs_first:
+                    check_pairs(k)
+                    check_all(k)
+                else:
+                    check_all(k)
+                    check_pairs(k)
         lim = limit if limit is not None else 0
         ctx.cls(f"limit={limit}")
         if maxdepth > lim:
@@ -178,17 +237,18 @@ def strategy(ctx):
         st.tuples(st.just("child"), par, upd),
         st.tuples(st.just("child"), par, upd),
         st.tuples(st.just("root"), upd),
+        st.tuples(st.just("twin"), par, upd, st.lists(st.integers(0, NFL - 1), max_size=3), st.integers(0, 2)),
         st.tuples(st.just("hash"), st.integers(0, 30)),
         st.tuples(st.just("repr"), st.integers(0, 30)),
         st.tuples(st.just("eq"), st.integers(0, 30), st.integers(0, 30)),
     )
     return st.fixed_dictionaries(
-        {"limit": st.sampled_from([1, 2, 20, None]), "ops": st.one_of(st.lists(op, min_size=1, max_size=nops), st.lists(op, min_size=15, max_size=nops)).map(lambda l: [list(map(_l, o)) for o in l])}
+        {"limit": st.sampled_from([1, 2, 20, None]), "sched": st.one_of(st.none(), st.lists(st.integers(0, nops), max_size=4)), "pairs_first": st.booleans(), "ops": st.one_of(st.lists(op, min_size=1, max_size=nops), st.lists(op, min_size=15, max_size=nops)).map(lambda l: [list(map(_l, o)) for o in l])}
     )
 
 
 def _l(x):
-    return [list(t) for t in x] if isinstance(x, list) else x
+    return [list(t) if isinstance(t, tuple) else t for t in x] if isinstance(x, list) else x
 
 
 def shard(ctx):
